@@ -269,6 +269,7 @@ class E5:
     def rule_r2(self):
         """noexc builds only."""
         n = 0
+        swallowers = {}
         for f in self.db.funcs:
             if f.is_pattern:
                 continue
@@ -279,6 +280,8 @@ class E5:
                 Walker(cl).function(f.body, "clean")
                 if not cl.tracked:
                     continue
+                if cl.swallows and not cl.read_elsewhere:
+                    swallowers[f.id] = (f, ec.get("name"), cl.setters[:1])
                 n += 1
                 ok = not cl.bad
                 self.chk.instance("R2.error-consumed", {"function": f.qual, "error_var": ec.get("name"), "where": f.where,
@@ -288,6 +291,27 @@ class E5:
                                        "%s at %s while '%s' may hold an unreported error (set by %s): the error is lost and a "
                                        "result is produced" % (why, where(node), ec.get("name"), ", ".join(cl.setters[:2])),
                                        where(node), cfg=self.cfg)
+        # nobody may call a function that drops an error on the floor: with exceptions disabled its caller continues as if the
+        # argument had been accepted.  Judged at every call site whose callee has such a sibling overload (same name).
+        names = {g.name for g, _, _ in swallowers.values()}
+        for f in self.db.funcs:
+            if f.is_pattern or f.body is None or f.id in swallowers:
+                continue
+            for c in walk(f.body):
+                if not _is_call(c) or self.db.callee(c)[0] not in names:
+                    continue
+                g = _callee_func(self.db, c)
+                n += 1
+                ok = g is None or g.id not in swallowers
+                self.chk.instance("R2.error-consumed", {"function": f.qual, "call": canon(c)[:60], "callee_sig": g.sig[:60] if g else None,
+                                                        "swallows_error": not ok, "cfg": self.cfg}, ok=ok)
+                if not ok:
+                    g0, ecn, setters = swallowers[g.id]
+                    self.chk.violation("R2.error-consumed", f.qual, "%s|%s" % (g.name, canon(c)[:40]),
+                                       "`%s`: this overload of %s keeps the error in a local '%s' (set by %s) that nobody reads, so with exceptions "
+                                       "disabled the error is lost and %s continues as if the argument had been accepted"
+                                       % (canon(c)[:70], g.name, ecn, ", ".join(setters), f.qual), where(c), cfg=self.cfg)
+        self.swallowers = sorted(g.qual + " " + g.sig[:40] for g, _, _ in swallowers.values())
         # member error code of ClipperD
         execs = self.db.find("ClipperD::Execute")
         for f in execs:
@@ -723,9 +747,11 @@ class _R2Client(Client):
         self.bad = []
         self.setters = []
         self.tracked = False
+        self.swallows = False
+        self.read_elsewhere = False
 
     def join(self, a, b):
-        return "dirty" if "dirty" in (a, b) else "clean"
+        return "dirty" if "dirty" in (a, b) else ("tested" if "tested" in (a, b) else "clean")
 
     def stmt(self, node, st):
         db = self.eng.db
@@ -746,24 +772,31 @@ class _R2Client(Client):
                     self.tracked = True
                     self.setters.append("%s (%s)" % (db.callee(p)[0], where(p)))
                     st = "dirty"
+                    continue
+            if p is None or not (p.get("kind") in ("BinaryOperator", "CompoundAssignOperator") and p.get("opcode", "").endswith("=")
+                                 and p.get("opcode") not in ("==", "!=", "<=", ">=") and strip(kids(p)[0]) is r):
+                self.read_elsewhere = True       # handed on, copied, returned ... (not an error-setting call, not a plain store)
         return st
 
     def cond_atom(self, e, st):
         e0 = strip(e)
         if e0.get("kind") == "DeclRefExpr" and e0.get("referencedDecl", {}).get("id") == self.ecid:
-            return st, "clean"     # true: error present (branch must return empty); false: no error
+            return ("tested" if st == "dirty" else st), "clean"     # true: error present (branch must return empty); false: no error
         if e0.get("kind") == "BinaryOperator" and e0.get("opcode") in ("!=", "==") and _refs(e0, self.ecid):
             a, b = [strip(x) for x in kids(e0)]
             if canon(a) == "0" or canon(b) == "0":
-                return (st, "clean") if e0.get("opcode") == "!=" else ("clean", st)
+                t = "tested" if st == "dirty" else st
+                return (t, "clean") if e0.get("opcode") == "!=" else ("clean", t)
         s = self.stmt(e, st)
         return s, s
 
     def on_return(self, node, st):
-        if st != "dirty":
+        if st not in ("dirty", "tested"):
             return
         ks = kids(node)
         if not ks:
+            if st == "dirty" and not self.read_elsewhere:
+                self.swallows = True
             return
         rv = strip(ks[0])
         while rv.get("kind") == "CXXConstructExpr" and len(kids(rv)) == 1 and dqt(strip(kids(rv)[0])).replace("const ", "") == dqt(rv):
@@ -791,5 +824,6 @@ class _R2Client(Client):
         self.bad.append((node, "`return %s`" % canon(rv)[:60]))
 
     def on_exit(self, st):
-        if st == "dirty" and self.func.sig.startswith("void"):
-            pass
+        # a function that ends while its local error code may hold an error nobody looked at has swallowed it
+        if st == "dirty" and not self.read_elsewhere:
+            self.swallows = True
